@@ -653,7 +653,7 @@ impl Exh {
         Exh {
             alpha: vec![
                 "%let ", "%do ", "%m", "%str(", "%eval(", "%if ", "%then ", "%to ", "%end", "%macro ", "%mend", "%put ", "%scan(", "%sysfunc(", "%goto ", "%l:", "a", "1", "=", ",", "(", ")", ";", " ", "\"", "'", "&v", "/*c*/", "* ", "%*c;",
-                "datalines;", "\n",
+                "datalines;", "\n", "/*",
             ],
             maxlen,
             label: "construct-openers",
